@@ -293,6 +293,7 @@ def run(ctx: Ctx) -> None:
     from ..rules import memo as _memo
     _memo.rule_memo_sound(ctx, ['graphiq/circuit/circuit_dag.py', 'graphiq/circuit/circuit_base.py'])
     _memo.rule_falsy_zero(ctx, ['graphiq/circuit/circuit_dag.py', 'graphiq/circuit/circuit_base.py'])
+    _memo.rule_arg_names(ctx, ['graphiq/circuit/circuit_dag.py', 'graphiq/circuit/circuit_base.py'])
     rule_own_dag(ctx)
     rule_nodekeys(ctx)
     rule_own_registers(ctx)
